@@ -655,3 +655,16 @@ package core
 //@ func (s SyncCommitteeSelection) Epoch
 //@ props C09 C10
 //@ ensures r0 == res(0, eth2util.EpochFromSlot(ctx, eth2Cl, s.Slot)) && r1 == res(1, eth2util.EpochFromSlot(ctx, eth2Cl, s.Slot))
+
+// Decoding consensus values by duty type: every decoder gets the whole payload, a payload is accepted exactly when one of
+// the type's decoders accepted it, and a type with two wire forms (aggregate: versioned / legacy; sync contribution:
+// plural / single) is only rejected after both decoders had their turn (no sniffing of the payload decides which one runs).
+//@ func unmarshalUnsignedData
+//@ props C14
+//@ callreq unmarshal: a1 == data
+//@ ghost okDec int
+//@ ghostafter unmarshal: okDec = okDec + ite(err == nil, 1, 0)
+//@ ensures (r1 == nil) <==> okDec > old(okDec)
+//@ ensures r1 != nil && (typ == DutyAggregator || typ == DutySyncContribution) ==> ncalls(unmarshal) == 2
+//@ ensures r1 != nil && (typ == DutyAttester || typ == DutyProposer) ==> ncalls(unmarshal) == 1
+//@ ensures r1 == nil ==> ncalls(unmarshal) >= 1
